@@ -33,11 +33,12 @@ def count_rs(eng, mask, upto=None):
     """cnt(i) = number of True entries of `mask` below i (rank), pos(k) = position of the k-th True entry (select).
     Assumed facts (all theorems about counting the True entries of a finite boolean sequence):
       cnt(0) = 0; cnt(i+1) = cnt(i) + [mask[i]]; 0 <= cnt(i) <= i; cnt monotone;
-      for 0 <= k < cnt(i):  0 <= pos(k) < i, mask[pos(k)], cnt(pos(k)) = k."""
+      for 0 <= k < cnt(i):  0 <= pos(k) < i, mask[pos(k)], cnt(pos(k)) = k;
+      two masks of one length with equal entries have equal counts."""
     key = ("cnt-rs", mask_key(mask))
     hit = eng.ghost.get(key)
     if hit is None:
-        eng.assumptions.add("numpy-model:np.count_nonzero (rank/select: unfolding, monotone rank, k-th True position exists)")
+        eng.assumptions.add("numpy-model:np.count_nonzero (rank/select: unfolding, monotone rank, k-th True position exists, masks with equal entries have equal counts)")
         tag = fresh_name("cnt")
         f = z3.Function(tag, z3.IntSort(), z3.IntSort())
         pos = z3.Function(tag + "_pos", z3.IntSort(), z3.IntSort())
@@ -50,6 +51,13 @@ def count_rs(eng, mask, upto=None):
         eng.assume(z3.ForAll([k, i], z3.Implies(z3.And(0 <= k, k < f(i), i >= 0),
                                                 z3.And(0 <= pos(k), pos(k) < i, to_z3(mask.get(pos(k)), "bool"), f(pos(k)) == k)),
                              patterns=[z3.MultiPattern(pos(k), f(i))]))
+        # the count depends only on the entries: two masks that agree below n have the same count at n
+        reg = eng.ghost.setdefault(("cnt-rs-all",), [])
+        e = z3.Int("e_" + tag)
+        for f2, mask2 in reg:
+            same = z3.ForAll([e], z3.Implies(z3.And(0 <= e, e < mask.nz()), to_z3(mask.get(e), "bool") == to_z3(mask2.get(e), "bool")))
+            eng.assume(z3.Implies(z3.And(mask.nz() == mask2.nz(), same), f(mask.nz()) == f2(mask2.nz())))
+        reg.append((f, mask))
         hit = (f, pos)
         eng.ghost[key] = hit
     f, pos = hit
